@@ -1,0 +1,30 @@
+//go:build verif
+
+// Contracts for the three-message gossip exchange (read as text by /verif's govc; comment-only).
+
+package gossip
+
+//@ spec func wfDigests(d node.Digests) bool = forall k node.Key :: __in(d, k) ==> d[k].Key == k
+
+//@ # per-member decisions of the exchange, as functions of "do I have a record / its heartbeat"
+//@ # sync (at the peer): send my record if the initiator lacks it or mine is ahead of its digest
+//@ spec func SyncSendsNode(hasD bool, d version.Heartbeat, hasS bool, s version.Heartbeat) bool = hasS && (!hasD || s.OlderThan(d))
+//@ # sync: ask for the initiator's record if I lack it or mine is behind its digest
+//@ spec func SyncAsks(hasD bool, d version.Heartbeat, hasS bool, s version.Heartbeat) bool = hasD && (!hasS || s.YoungerThan(d))
+
+//@ func (g *Gossip) sync(sync Message) (ack Message)
+//@   requires wfDigests(sync.Digests) && store.SpecWFGroup(store.SpecIState[g.Store].Nodes)
+//@   ensures  ack.Nodes != nil && ack.Digests != nil && store.SpecWFGroup(ack.Nodes) && wfDigests(ack.Digests)
+//@   ensures  forall k node.Key :: __in(ack.Nodes, k) == SyncSendsNode(__in(sync.Digests, k), sync.Digests[k].Heartbeat, __in(store.SpecIState[g.Store].Nodes, k), store.SpecIState[g.Store].Nodes[k].Heartbeat)
+//@   ensures  forall k node.Key :: __in(ack.Nodes, k) ==> ack.Nodes[k] == store.SpecIState[g.Store].Nodes[k]
+//@   ensures  forall k node.Key :: __in(ack.Digests, k) == SyncAsks(__in(sync.Digests, k), sync.Digests[k].Heartbeat, __in(store.SpecIState[g.Store].Nodes, k), store.SpecIState[g.Store].Nodes[k].Heartbeat)
+//@   ensures  forall k node.Key :: __in(ack.Digests, k) ==> ack.Digests[k].Heartbeat == store.SpecIState[g.Store].Nodes[k].Heartbeat
+//@   modifies nothing
+//@   loop 0 modifies ack.Nodes, ack.Digests
+//@   loop 0 invariant forall k node.Key :: __in(ack.Nodes, k) == (__seen(k) && SyncSendsNode(true, sync.Digests[k].Heartbeat, __in(snap.Nodes, k), snap.Nodes[k].Heartbeat))
+//@   loop 0 invariant forall k node.Key :: __in(ack.Nodes, k) ==> ack.Nodes[k] == snap.Nodes[k]
+//@   loop 0 invariant forall k node.Key :: __in(ack.Digests, k) == (__seen(k) && SyncAsks(true, sync.Digests[k].Heartbeat, __in(snap.Nodes, k), snap.Nodes[k].Heartbeat))
+//@   loop 0 invariant forall k node.Key :: __in(ack.Digests, k) ==> ack.Digests[k].Key == k && ack.Digests[k].Heartbeat == snap.Nodes[k].Heartbeat
+//@   loop 1 modifies ack.Nodes
+//@   loop 1 invariant forall k node.Key :: __in(ack.Nodes, k) == (SyncSendsNode(true, sync.Digests[k].Heartbeat, __in(snap.Nodes, k), snap.Nodes[k].Heartbeat) && __in(sync.Digests, k) || (__seen(k) && !__in(sync.Digests, k)))
+//@   loop 1 invariant forall k node.Key :: __in(ack.Nodes, k) ==> ack.Nodes[k] == snap.Nodes[k]
